@@ -60,7 +60,7 @@ theorem reachable_N {n : Nat} {s : St} (h : Reachable n s) : s.N = n := by
 theorem step_abs (s : St) (t : Nat) (h : Inv s) :
     abs (step s t) = abs s
     ∨ (∃ v id len, s.thr t = .pPublish v id len ∧ abs (step s t) = abs s ++ [v] ∧ (abs s).length < s.N
-          ∧ (step s t).thr t = .done (.sent len))
+          ∧ (step s t).thr t = .pLen id)
     ∨ (∃ id idx g, s.thr t = .rPub id idx g ∧ abs (step s t) = abs s ++ [s.buf idx] ∧ (abs s).length < s.N
           ∧ ∃ r, (step s t).thr t = .done (.pubIdx (some r)))
     ∨ (∃ id v, s.thr t = .cRelease id v ∧ abs s = v :: abs (step s t) ∧ (step s t).thr t = .done (.got v)) := by
@@ -116,7 +116,7 @@ theorem step_abs (s : St) (t : Nat) (h : Inv s) :
 theorem step_done_origin (s : St) (t : Nat) (r : Res) (h : (step s t).thr t = .done r) :
     s.thr t = .done r ∨
     (∃ v id rsv w, s.thr t = .pRecede v id rsv w ∧ s.enqTail = id + 1 ∧ r = .full) ∨
-    (∃ v id len, s.thr t = .pPublish v id len ∧ s.tail = id ∧ r = .sent len) ∨
+    (∃ id, s.thr t = .pLen id ∧ r = .sent (max 1 (id + 1 - s.head))) ∨
     (∃ id idx g, s.thr t = .rPub id idx g ∧ s.tail = g ∧ r = .pubIdx (some (max 1 (g - s.head)))) ∨
     (∃ id idx g, s.thr t = .rCan id idx g ∧ s.enqTail = g + 1 ∧ r = .canIdx true) ∨
     (∃ hh w, s.thr t = .cChkTail hh w ∧ s.tail = hh ∧ r = .empty) ∨
@@ -215,8 +215,8 @@ theorem quiescent_counters (s : St) (h : Inv s) (hid : ∀ t, s.thr t = .idle) :
     · obtain ⟨u, hu⟩ := h.cCover s.head (Nat.le_refl _) (by omega)
       simp [hid u, holdsC] at hu
 
-/-- the five actions of a solo `send` -/
-def sendSolo (t v : Nat) : List Act := [.send t v, .step t, .step t, .step t, .step t]
+/-- the six actions of a solo `send` (call, claim, load `head`, write, publish, load `head` again for the length) -/
+def sendSolo (t v : Nat) : List Act := [.send t v, .step t, .step t, .step t, .step t, .step t]
 
 theorem solo_send_ok (s : St) (t v : Nat) (hid : ∀ u, s.thr u = .idle) (he : s.enqTail = s.tail)
     (hroom : s.tail - s.head < s.N) :
@@ -228,8 +228,9 @@ theorem solo_send_ok (s : St) (t v : Nat) (hid : ∀ u, s.thr u = .idle) (he : s
   simp [sendSolo, run, apply, step, hid, he, hroom, setBuf]
   refine ⟨?_, rfl⟩
   intro u; split <;> simp [*]
+  omega
 
-/-- a solo `send` on a full ring: rejected after 3 own steps (the 4th is a no-op), nothing changed -/
+/-- a solo `send` on a full ring: rejected after 3 own steps (the others are no-ops), nothing changed -/
 theorem solo_send_full (s : St) (t v : Nat) (hid : ∀ u, s.thr u = .idle) (he : s.enqTail = s.tail)
     (hfull : ¬ (s.tail - s.head < s.N)) :
     let s3 := run s [.send t v, .step t, .step t, .step t]
